@@ -188,6 +188,12 @@ void World::c19_send(Client &cl, const Op &op) {
 		if (last) break;
 	} while (true);
 	if (i > 1) probe("c19_fragmented_message");
+	if (op.a.getb("omit_last") && i > 1) {
+		// the message never gets complete (the connection ends in the middle of it): nothing may be echoed, nothing may be left behind
+		size_t lastlen = 0; { size_t pos = 0, idx = 0; while (pos < bytes.size()) { unsigned char b1 = (unsigned char)bytes[pos + 1]; size_t L = b1 & 0x7f, hl = 2; if (L == 126) { L = ((unsigned char)bytes[pos + 2] << 8) | (unsigned char)bytes[pos + 3]; hl = 4; } hl += 4; lastlen = hl + L; pos += lastlen; idx++; } }
+		bytes.resize(bytes.size() - lastlen);
+		probe("c19_incomplete_fragmented_message"); c.broken = true; cl.no_expect = true;
+	}
 	if (!c.broken) c.expect.emplace_back(opcode, msg);
 	send_from_client(cl, bytes, op.a.get("seg"), (uint64_t)op.a.getd("gap", 0), op.uid);
 }
